@@ -107,7 +107,8 @@ SCOPESETS = [["read", "write"], ["read"], ["write"], ["read", "write", "extra"],
              ["write", "relay:stats"], ["host"], ["read", "read"], ["write", "write"], ["read", "read", "read"], ["read", "write", "read"],
              ["write", "read", "write", "write"]]
 ADMIN_SCOPES = [["relay:admin"], ["relay:admin", "read"], ["relay:admin "], ["Relay:Admin"], ["relay:admins"], ["admin"],
-                ["relay:stats"], ["read", "write"], ["relay:stats", "relay:admin"]]
+                ["relay:stats"], ["read", "write"], ["relay:stats", "relay:admin"], ["relay:admin:x"], ["relay:admin:"], ["relay:stats:x"], ["relay:stats:"],
+                ["relay"], ["relay:"], [":admin"], ["relay::admin"], ["xrelay:admin"], ["relay:admin,relay:stats"], ["relay:*"], ["*"], [""]]
 WS_PATHS = [("/session/{t}", True), ("/session/{t}/", True), ("/shell/{t}", False), ("/{t}", False), ("/session/{t}!x", True),
             ("/sessionx/{t}", False), ("/session/{t}x", True), ("/session/{t}/more", True), ("/Session/{t}", False)]
 
@@ -255,7 +256,11 @@ class RelayMode(vlib.Mode):
                 exp = rng.choice([sval(str(now + 500))] * 5 + [sval(str(now)), sval(str(now - 1)), "a", sval("abc"), sval("-5"),
                                                                    sval("9223372036854775808"), sval("+7"), "s-", sval("1e3"), sval("-9223372036854775808"),
                                                                    sval("-9223372036854775807"), sval("9223372036854775807"), sval("-9223372036854775809")])
+                if rng.random() < 0.3 and exp == sval(str(now + 500)):
+                    exp = sval(str(now + rng.choice([1, 2, 7, 40])))         # a near expiry: the clock can be moved exactly onto it later
                 case.append(f"{verb} {cred} {bid} {exp}")
+                if exp.startswith("s") and exp[1:] and unhx(exp[1:]).decode().lstrip("-").isdigit() and abs(int(unhx(exp[1:]).decode())) < 10**12:
+                    st.setdefault("marks", []).append(int(unhx(exp[1:]).decode()))
                 if cred == admin(): used.append(case[-1])
                 if verb == "deny" and cred.startswith("alg=") and "relay:admin".encode().hex() in cred and bid.startswith("s") and bid != "s-":
                     st["denied"].add(unhx(bid[1:]).decode())
@@ -270,7 +275,11 @@ class RelayMode(vlib.Mode):
                 case.append(f"status {cred}")
                 if cred == stats(): used.append(case[-1])
             elif r < 0.93:
-                st["now"] += rng.choice([1, 5, 29, 30, 31, 100, 3700, -5, -1500])   # the clock may also be set back
+                marks = st.setdefault("marks", [])
+                if marks and rng.random() < 0.35:
+                    st["now"] = rng.choice(marks) + rng.choice([0, 0, 0, -1, 1])    # exactly on (or next to) an expiry / not-before instant used earlier
+                else:
+                    st["now"] += rng.choice([1, 5, 29, 30, 31, 100, 3700, -5, -1500])   # the clock may also be set back
                 case.append(f"now {st['now']}")
             else:
                 nj = st.get("joined", 0)
